@@ -413,6 +413,9 @@ func c15(env *Env, rep *Report) {
 			}
 		}
 	}
+	if gwBin() != "" && env.Shard == 0 {
+		bindUserToken(rep, "C15")
+	}
 	rep.add("distinct", int64(distinct))
 	rep.add("states", int64(distinct))
 }
